@@ -10,7 +10,7 @@ Open Scope Z_scope.
 Definition mixM : Z := 2147483647.
 Definition mix (h x : Z) : Z := (h * 1000003 + x mod mixM + 12345) mod mixM.
 Definition sum_db (h : Z) (d : db) : Z := mix (fold_left mix (kv d) h) (off d).
-Definition tcode (t : ticket) : Z := match t with TW i => 2 * Z.of_nat i | TR id _ => 2 * Z.of_nat id + 1 end.
+Definition tcode (t : ticket) : Z := match t with TW i => 2 * Z.of_nat i | TR id _ _ => 2 * Z.of_nat id + 1 end.
 
 Definition state_sum (s : st) : Z :=
   fold_left mix (map tcode (acked s)) (sum_db (mix (mix (sum_db 0 (dbt s)) (eoff s)) (comm s)) (dbc s)).
